@@ -37,14 +37,24 @@ fn rates() -> Vec<Rate> {
         Rate::Offset(1.0),
         Rate::Offset(-1.0),
         Rate::Combined(vec![Rate::Factor(2.0), Rate::Offset(1.0)]),
-        Rate::Combined(vec![Rate::Combined(vec![Rate::Offset(-1.0), Rate::Factor(0.5)]), Rate::Raw]),
+        Rate::Combined(vec![
+            Rate::Combined(vec![Rate::Offset(-1.0), Rate::Factor(0.5)]),
+            Rate::Raw,
+        ]),
     ]
 }
 
 /// every rate term of bounded shape: the six atoms, and Combined lists of length 0..max_len whose elements are atoms or
 /// Combined lists (length 1..2) over three further atoms — nested blocks in every position, after every kind of mapping
 fn rate_terms(max_len: usize) -> Vec<Rate> {
-    let atoms = vec![Rate::Zero, Rate::Raw, Rate::Factor(2.0), Rate::Factor(-2.0), Rate::Offset(1.0), Rate::Offset(-1.0)];
+    let atoms = vec![
+        Rate::Zero,
+        Rate::Raw,
+        Rate::Factor(2.0),
+        Rate::Factor(-2.0),
+        Rate::Offset(1.0),
+        Rate::Offset(-1.0),
+    ];
     let inner_atoms = [Rate::Factor(0.5), Rate::Offset(3.0), Rate::Zero];
     let mut elements = atoms.clone();
     for a in inner_atoms.iter() {
@@ -84,14 +94,27 @@ enum NetRate {
 impl NetRate {
     /// surcharges for edge 1 and the pair (0, 1)
     fn real(&self) -> NetworkCostRate {
-        let e = |c: f64| NetworkCostRate::EdgeLookup { lookup: [(EdgeId(1), Cost::new(c))].into_iter().collect() };
-        let p = |c: f64| NetworkCostRate::EdgeEdgeLookup { lookup: [((EdgeId(0), EdgeId(1)), Cost::new(c))].into_iter().collect() };
+        let e = |c: f64| NetworkCostRate::EdgeLookup {
+            lookup: [(EdgeId(1), Cost::new(c))].into_iter().collect(),
+        };
+        let p = |c: f64| NetworkCostRate::EdgeEdgeLookup {
+            lookup: [((EdgeId(0), EdgeId(1)), Cost::new(c))]
+                .into_iter()
+                .collect(),
+        };
         match self {
             NetRate::Zero => NetworkCostRate::Zero,
             NetRate::Edge(c) => e(*c),
             NetRate::Pair(c) => p(*c),
             NetRate::Both(a, b) => NetworkCostRate::Combined(vec![e(*a), p(*b)]),
-            NetRate::EdgeTwice(a, b, nested) => NetworkCostRate::Combined(vec![if *nested { NetworkCostRate::Combined(vec![e(*a)]) } else { e(*a) }, e(*b)]),
+            NetRate::EdgeTwice(a, b, nested) => NetworkCostRate::Combined(vec![
+                if *nested {
+                    NetworkCostRate::Combined(vec![e(*a)])
+                } else {
+                    e(*a)
+                },
+                e(*b),
+            ]),
         }
     }
     fn edge(&self) -> f64 {
@@ -133,25 +156,58 @@ impl Cfg {
     fn state_model(&self) -> StateModel {
         StateModel::new(
             (0..self.k())
-                .map(|i| (format!("f{}", i), StateFeature::Distance { distance_unit: DistanceUnit::Meters, initial: Distance::new(0.0) }))
+                .map(|i| {
+                    (
+                        format!("f{}", i),
+                        StateFeature::Distance {
+                            distance_unit: DistanceUnit::Meters,
+                            initial: Distance::new(0.0),
+                        },
+                    )
+                })
                 .collect(),
         )
     }
     fn cost_model(&self, sm: Arc<StateModel>) -> Result<CostModel, String> {
-        let weights: HashMap<String, f64> = self.weights.iter().enumerate().map(|(i, w)| (format!("f{}", i), *w)).collect();
-        let rates: HashMap<String, _> = self.rates.iter().enumerate().map(|(i, r)| (format!("f{}", i), r.real())).collect();
+        let weights: HashMap<String, f64> = self
+            .weights
+            .iter()
+            .enumerate()
+            .map(|(i, w)| (format!("f{}", i), *w))
+            .collect();
+        let rates: HashMap<String, _> = self
+            .rates
+            .iter()
+            .enumerate()
+            .map(|(i, r)| (format!("f{}", i), r.real()))
+            .collect();
         let mut net = HashMap::new();
         if self.net != NetRate::Zero {
             net.insert("f0".to_string(), self.net.real());
         }
-        CostModel::new(Arc::new(weights), Arc::new(rates), Arc::new(net), if self.mul { CostAggregation::Mul } else { CostAggregation::Sum }, sm).map_err(|e| e.to_string())
+        CostModel::new(
+            Arc::new(weights),
+            Arc::new(rates),
+            Arc::new(net),
+            if self.mul {
+                CostAggregation::Mul
+            } else {
+                CostAggregation::Sum
+            },
+            sm,
+        )
+        .map_err(|e| e.to_string())
     }
     /// reference: sum over features of weight x rated change
     fn ref_vehicle(&self, delta: &[f64]) -> f64 {
         if self.mul {
-            (0..self.k()).map(|i| self.rates[i].apply(delta[i]) * self.weights[i]).product()
+            (0..self.k())
+                .map(|i| self.rates[i].apply(delta[i]) * self.weights[i])
+                .product()
         } else {
-            (0..self.k()).map(|i| self.rates[i].apply(delta[i]) * self.weights[i]).sum()
+            (0..self.k())
+                .map(|i| self.rates[i].apply(delta[i]) * self.weights[i])
+                .sum()
         }
     }
 }
@@ -171,13 +227,23 @@ impl TraversalModel for DeltaTraversal {
     fn state_features(&self) -> Vec<(String, StateFeature)> {
         vec![]
     }
-    fn traverse_edge(&self, _: (&Vertex, &Edge, &Vertex), s: &mut Vec<StateVar>, _: &StateModel) -> Result<(), TraversalModelError> {
+    fn traverse_edge(
+        &self,
+        _: (&Vertex, &Edge, &Vertex),
+        s: &mut Vec<StateVar>,
+        _: &StateModel,
+    ) -> Result<(), TraversalModelError> {
         for (x, d) in s.iter_mut().zip(self.delta.iter()) {
             x.0 += d;
         }
         Ok(())
     }
-    fn estimate_traversal(&self, _: (&Vertex, &Vertex), s: &mut Vec<StateVar>, _: &StateModel) -> Result<(), TraversalModelError> {
+    fn estimate_traversal(
+        &self,
+        _: (&Vertex, &Vertex),
+        s: &mut Vec<StateVar>,
+        _: &StateModel,
+    ) -> Result<(), TraversalModelError> {
         for (x, d) in s.iter_mut().zip(self.delta.iter()) {
             x.0 += d;
         }
@@ -191,7 +257,12 @@ impl AccessModel for DeltaAccess {
     fn state_features(&self) -> Vec<(String, StateFeature)> {
         vec![]
     }
-    fn access_edge(&self, _: (&Vertex, &Edge, &Vertex, &Edge, &Vertex), s: &mut Vec<StateVar>, _: &StateModel) -> Result<(), AccessModelError> {
+    fn access_edge(
+        &self,
+        _: (&Vertex, &Edge, &Vertex, &Edge, &Vertex),
+        s: &mut Vec<StateVar>,
+        _: &StateModel,
+    ) -> Result<(), AccessModelError> {
         for (x, d) in s.iter_mut().zip(self.delta.iter()) {
             x.0 += d;
         }
@@ -213,27 +284,55 @@ fn check_cfg(cfg: &Cfg, pairs: &[(Vec<f64>, Vec<f64>)], st: &mut Stats) {
             return;
         }
     };
-    if cfg.weights.iter().any(|w| *w < 0.0) || cfg.rates.iter().any(|r| !matches!(r, Rate::Raw | Rate::Zero)) {
+    if cfg.weights.iter().any(|w| *w < 0.0)
+        || cfg
+            .rates
+            .iter()
+            .any(|r| !matches!(r, Rate::Raw | Rate::Zero))
+    {
         st.nontrivial += 1;
     }
-    let net = Net { n: 3, edges: vec![(0, 1, 1.0), (1, 2, 1.0)], xy: None };
+    let net = Net {
+        n: 3,
+        edges: vec![(0, 1, 1.0), (1, 2, 1.0)],
+        xy: None,
+    };
     let graph = Arc::new(net.graph());
     let e0 = *graph.get_edge(&EdgeId(0)).unwrap();
     let e1 = *graph.get_edge(&EdgeId(1)).unwrap();
     let k = cfg.k();
     let agg = if cfg.mul { "mul" } else { "sum" };
-    let size = (k * 1000) as u64 + cfg.rates.iter().map(|r| if *r == Rate::Raw { 0 } else { 10 }).sum::<u64>() + if cfg.net == NetRate::Zero { 0 } else { 5 };
+    let size = (k * 1000) as u64
+        + cfg
+            .rates
+            .iter()
+            .map(|r| if *r == Rate::Raw { 0 } else { 10 })
+            .sum::<u64>()
+        + if cfg.net == NetRate::Zero { 0 } else { 5 };
     // weights far below the floor: sums are compared relative to their own size (the usual comparison allows 1e-12 of
     // absolute slack, ten times the sums in question), and pairs whose terms cancel to within rounding are left out
     let tiny = cfg.weights.iter().any(|w| *w != 0.0 && w.abs() < 1e-6);
-    let close = |a: f64, b: f64, rel: f64| if tiny { a == b || (a - b).abs() <= 1e-9 * a.abs().max(b.abs()) } else { close(a, b, rel) };
+    let close = |a: f64, b: f64, rel: f64| {
+        if tiny {
+            a == b || (a - b).abs() <= 1e-9 * a.abs().max(b.abs())
+        } else {
+            close(a, b, rel)
+        }
+    };
     for (prev, next) in pairs.iter() {
         if tiny {
             let delta: Vec<f64> = prev.iter().zip(next.iter()).map(|(a, b)| b - a).collect();
-            let terms: f64 = (0..cfg.k()).map(|i| (cfg.rates[i].apply(delta[i]) * cfg.weights[i]).abs()).sum::<f64>() + (cfg.net.edge() * cfg.weights[0]).abs() + (cfg.net.pair() * cfg.weights[0]).abs();
+            let terms: f64 = (0..cfg.k())
+                .map(|i| (cfg.rates[i].apply(delta[i]) * cfg.weights[i]).abs())
+                .sum::<f64>()
+                + (cfg.net.edge() * cfg.weights[0]).abs()
+                + (cfg.net.pair() * cfg.weights[0]).abs();
             let v = cfg.ref_vehicle(&delta);
             let near = |x: f64| x != 0.0 && x.abs() < 1e-6 * terms;
-            if near(v) || near(v + cfg.net.edge() * cfg.weights[0]) || near(v + cfg.net.pair() * cfg.weights[0]) {
+            if near(v)
+                || near(v + cfg.net.edge() * cfg.weights[0])
+                || near(v + cfg.net.pair() * cfg.weights[0])
+            {
                 continue;
             }
         }
@@ -257,19 +356,43 @@ fn check_cfg(cfg: &Cfg, pairs: &[(Vec<f64>, Vec<f64>)], st: &mut Stats) {
                 if finite_pos(c) {
                     st.pass("traversal_cost_finite_positive");
                 } else {
-                    st.violation(&format!("cost_model.traversal_cost.{}", agg), "finite_and_strictly_positive", size, || format!("{}", c), case);
+                    st.violation(
+                        &format!("cost_model.traversal_cost.{}", agg),
+                        "finite_and_strictly_positive",
+                        size,
+                        || format!("{}", c),
+                        case,
+                    );
                 }
                 if !cfg.mul {
                     let want = floor(veh + net_t);
                     if close(c, want, 1e-9) {
                         st.pass("traversal_cost_matches_formula");
                     } else {
-                        st.violation(&format!("cost_model.traversal_cost.{}", cfg.net.name()), "sum_formula", size, || format!("got {} want {}", c, want), case);
+                        st.violation(
+                            &format!("cost_model.traversal_cost.{}", cfg.net.name()),
+                            "sum_formula",
+                            size,
+                            || format!("got {} want {}", c, want),
+                            case,
+                        );
                     }
                 }
             }
-            Ok(Err(e)) => st.violation("cost_model.traversal_cost", "returns_ok", size, || e.to_string(), case),
-            Err(pn) => st.violation("cost_model.traversal_cost", "no_panic", size, || pn.clone(), case),
+            Ok(Err(e)) => st.violation(
+                "cost_model.traversal_cost",
+                "returns_ok",
+                size,
+                || e.to_string(),
+                case,
+            ),
+            Err(pn) => st.violation(
+                "cost_model.traversal_cost",
+                "no_panic",
+                size,
+                || pn.clone(),
+                case,
+            ),
         }
         match guarded(|| cm.access_cost(&e0, &e1, &p, &n)) {
             Ok(Ok(c)) => {
@@ -277,19 +400,43 @@ fn check_cfg(cfg: &Cfg, pairs: &[(Vec<f64>, Vec<f64>)], st: &mut Stats) {
                 if finite_pos(c) {
                     st.pass("access_cost_finite_positive");
                 } else {
-                    st.violation(&format!("cost_model.access_cost.{}", agg), "finite_and_strictly_positive", size, || format!("{}", c), case);
+                    st.violation(
+                        &format!("cost_model.access_cost.{}", agg),
+                        "finite_and_strictly_positive",
+                        size,
+                        || format!("{}", c),
+                        case,
+                    );
                 }
                 if !cfg.mul {
                     let want = floor(veh + net_a);
                     if close(c, want, 1e-9) {
                         st.pass("access_cost_matches_formula");
                     } else {
-                        st.violation(&format!("cost_model.access_cost.{}", cfg.net.name()), "sum_formula", size, || format!("got {} want {}", c, want), case);
+                        st.violation(
+                            &format!("cost_model.access_cost.{}", cfg.net.name()),
+                            "sum_formula",
+                            size,
+                            || format!("got {} want {}", c, want),
+                            case,
+                        );
                     }
                 }
             }
-            Ok(Err(e)) => st.violation("cost_model.access_cost", "returns_ok", size, || e.to_string(), case),
-            Err(pn) => st.violation("cost_model.access_cost", "no_panic", size, || pn.clone(), case),
+            Ok(Err(e)) => st.violation(
+                "cost_model.access_cost",
+                "returns_ok",
+                size,
+                || e.to_string(),
+                case,
+            ),
+            Err(pn) => st.violation(
+                "cost_model.access_cost",
+                "no_panic",
+                size,
+                || pn.clone(),
+                case,
+            ),
         }
         match guarded(|| cm.cost_estimate(&p, &n)) {
             Ok(Ok(c)) => {
@@ -297,19 +444,43 @@ fn check_cfg(cfg: &Cfg, pairs: &[(Vec<f64>, Vec<f64>)], st: &mut Stats) {
                 if c.is_finite() && c >= 0.0 {
                     st.pass("estimate_finite_non_negative");
                 } else {
-                    st.violation(&format!("cost_model.cost_estimate.{}", agg), "finite_and_non_negative", size, || format!("{}", c), case);
+                    st.violation(
+                        &format!("cost_model.cost_estimate.{}", agg),
+                        "finite_and_non_negative",
+                        size,
+                        || format!("{}", c),
+                        case,
+                    );
                 }
                 if !cfg.mul {
                     let want = veh.max(0.0);
                     if close(c, want, 1e-9) {
                         st.pass("estimate_matches_formula");
                     } else {
-                        st.violation("cost_model.cost_estimate", "sum_formula", size, || format!("got {} want {}", c, want), case);
+                        st.violation(
+                            "cost_model.cost_estimate",
+                            "sum_formula",
+                            size,
+                            || format!("got {} want {}", c, want),
+                            case,
+                        );
                     }
                 }
             }
-            Ok(Err(e)) => st.violation("cost_model.cost_estimate", "returns_ok", size, || e.to_string(), case),
-            Err(pn) => st.violation("cost_model.cost_estimate", "no_panic", size, || pn.clone(), case),
+            Ok(Err(e)) => st.violation(
+                "cost_model.cost_estimate",
+                "returns_ok",
+                size,
+                || e.to_string(),
+                case,
+            ),
+            Err(pn) => st.violation(
+                "cost_model.cost_estimate",
+                "no_panic",
+                size,
+                || pn.clone(),
+                case,
+            ),
         }
     }
 }
@@ -321,10 +492,20 @@ fn check_edge_traversal(cfg: &Cfg, deltas: &[(Vec<f64>, Vec<f64>)], st: &mut Sta
         Ok(c) => Arc::new(c),
         Err(_) => return,
     };
-    let net = Net { n: 3, edges: vec![(0, 1, 1.0), (1, 2, 1.0)], xy: None };
+    let net = Net {
+        n: 3,
+        edges: vec![(0, 1, 1.0), (1, 2, 1.0)],
+        xy: None,
+    };
     let graph = Arc::new(net.graph());
     let k = cfg.k();
-    let size = (k * 1000) as u64 + if cfg.net == NetRate::Zero { 0 } else { 5 } + cfg.rates.iter().map(|r| if *r == Rate::Raw { 0 } else { 10 }).sum::<u64>();
+    let size = (k * 1000) as u64
+        + if cfg.net == NetRate::Zero { 0 } else { 5 }
+        + cfg
+            .rates
+            .iter()
+            .map(|r| if *r == Rate::Raw { 0 } else { 10 })
+            .sum::<u64>();
     for (acc, trav) in deltas.iter() {
         for with_prev in [true, false] {
             for reverse in [false, true] {
@@ -334,7 +515,9 @@ fn check_edge_traversal(cfg: &Cfg, deltas: &[(Vec<f64>, Vec<f64>)], st: &mut Sta
                 let si = SearchInstance {
                     directed_graph: graph.clone(),
                     state_model: sm.clone(),
-                    traversal_model: Arc::new(DeltaTraversal { delta: trav.clone() }),
+                    traversal_model: Arc::new(DeltaTraversal {
+                        delta: trav.clone(),
+                    }),
                     access_model: Arc::new(DeltaAccess { delta: acc.clone() }),
                     cost_model: cm.clone(),
                     frontier_model: Arc::new(NoRestriction {}),
@@ -345,34 +528,102 @@ fn check_edge_traversal(cfg: &Cfg, deltas: &[(Vec<f64>, Vec<f64>)], st: &mut Sta
                 // forward: traverse e1 after e0; reverse: traverse e0 before e1
                 let r = guarded(|| {
                     if reverse {
-                        EdgeTraversal::reverse_traversal(EdgeId(0), if with_prev { Some(EdgeId(1)) } else { None }, &prev, &si)
+                        EdgeTraversal::reverse_traversal(
+                            EdgeId(0),
+                            if with_prev { Some(EdgeId(1)) } else { None },
+                            &prev,
+                            &si,
+                        )
                     } else {
-                        EdgeTraversal::forward_traversal(EdgeId(1), if with_prev { Some(EdgeId(0)) } else { None }, &prev, &si)
+                        EdgeTraversal::forward_traversal(
+                            EdgeId(1),
+                            if with_prev { Some(EdgeId(0)) } else { None },
+                            &prev,
+                            &si,
+                        )
                     }
                 });
-                let dir = if reverse { "reverse_traversal" } else { "forward_traversal" };
+                let dir = if reverse {
+                    "reverse_traversal"
+                } else {
+                    "forward_traversal"
+                };
                 match r {
-                    Err(p) => st.violation(&format!("edge_traversal.{}", dir), "no_panic", size, || p.clone(), case),
-                    Ok(Err(e)) => st.violation(&format!("edge_traversal.{}", dir), "returns_ok", size, || e.to_string(), case),
+                    Err(p) => st.violation(
+                        &format!("edge_traversal.{}", dir),
+                        "no_panic",
+                        size,
+                        || p.clone(),
+                        case,
+                    ),
+                    Ok(Err(e)) => st.violation(
+                        &format!("edge_traversal.{}", dir),
+                        "returns_ok",
+                        size,
+                        || e.to_string(),
+                        case,
+                    ),
                     Ok(Ok(et)) => {
                         let total = et.total_cost().as_f64();
                         if finite_pos(total) {
                             st.pass("charged_cost_finite_positive");
                         } else {
-                            st.violation(&format!("edge_traversal.{}.{}", dir, if cfg.mul { "mul" } else { "sum" }), "charged_cost_finite_and_strictly_positive", size, || format!("access {} + traversal {} = {}", et.access_cost.as_f64(), et.traversal_cost.as_f64(), total), case);
+                            st.violation(
+                                &format!(
+                                    "edge_traversal.{}.{}",
+                                    dir,
+                                    if cfg.mul { "mul" } else { "sum" }
+                                ),
+                                "charged_cost_finite_and_strictly_positive",
+                                size,
+                                || {
+                                    format!(
+                                        "access {} + traversal {} = {}",
+                                        et.access_cost.as_f64(),
+                                        et.traversal_cost.as_f64(),
+                                        total
+                                    )
+                                },
+                                case,
+                            );
                         }
                         if !cfg.mul {
-                            let total_delta: Vec<f64> = (0..k).map(|i| trav[i] + if with_prev { acc[i] } else { 0.0 }).collect();
+                            let total_delta: Vec<f64> = (0..k)
+                                .map(|i| trav[i] + if with_prev { acc[i] } else { 0.0 })
+                                .collect();
                             let w0 = cfg.weights[0];
                             // the traversed edge is e1 (forward) / e0 (reverse); the per-edge surcharge is configured on e1, the per-turn one on (e0, e1)
                             let edge_sur = if reverse { 0.0 } else { cfg.net.edge() * w0 };
                             let turn_sur = if with_prev { cfg.net.pair() * w0 } else { 0.0 };
                             let want = floor(cfg.ref_vehicle(&total_delta) + edge_sur + turn_sur);
-                            let comp = format!("edge_traversal.{}.{}{}", dir, cfg.net.name(), if with_prev && cfg.net.pair() != 0.0 { ".turn_with_surcharge" } else { "" });
+                            let comp = format!(
+                                "edge_traversal.{}.{}{}",
+                                dir,
+                                cfg.net.name(),
+                                if with_prev && cfg.net.pair() != 0.0 {
+                                    ".turn_with_surcharge"
+                                } else {
+                                    ""
+                                }
+                            );
                             if close(total, want, 1e-9) {
                                 st.pass("charged_cost_matches_formula");
                             } else {
-                                st.violation(&comp, "charged_cost_is_weighted_change_plus_surcharges", size, || format!("access {} + traversal {} = {} but formula gives {}", et.access_cost.as_f64(), et.traversal_cost.as_f64(), total, want), case);
+                                st.violation(
+                                    &comp,
+                                    "charged_cost_is_weighted_change_plus_surcharges",
+                                    size,
+                                    || {
+                                        format!(
+                                            "access {} + traversal {} = {} but formula gives {}",
+                                            et.access_cost.as_f64(),
+                                            et.traversal_cost.as_f64(),
+                                            total,
+                                            want
+                                        )
+                                    },
+                                    case,
+                                );
                             }
                         }
                     }
@@ -400,8 +651,20 @@ fn all_vecs(vals: &[f64], k: usize) -> Vec<Vec<f64>> {
 
 fn configs(k: usize, tier: Tier) -> Vec<Cfg> {
     // one feature: every rate term of bounded shape; two and three features: the eight hand-picked mappings
-    let rs = if k == 1 { rate_terms(tier.pick(2, 3)) } else { rates() };
-    let nets = [NetRate::Zero, NetRate::Edge(3.0), NetRate::Pair(100.0), NetRate::Both(3.0, 100.0), NetRate::Edge(-0.5), NetRate::EdgeTwice(3.0, -2.0, false), NetRate::EdgeTwice(-2.0, 3.0, true)];
+    let rs = if k == 1 {
+        rate_terms(tier.pick(2, 3))
+    } else {
+        rates()
+    };
+    let nets = [
+        NetRate::Zero,
+        NetRate::Edge(3.0),
+        NetRate::Pair(100.0),
+        NetRate::Both(3.0, 100.0),
+        NetRate::Edge(-0.5),
+        NetRate::EdgeTwice(3.0, -2.0, false),
+        NetRate::EdgeTwice(-2.0, 3.0, true),
+    ];
     let mut out = vec![];
     let weight_vecs = all_vecs(&WEIGHTS, k);
     let rate_idx = all_vecs(&(0..rs.len()).map(|i| i as f64).collect::<Vec<_>>(), k);
@@ -416,7 +679,12 @@ fn configs(k: usize, tier: Tier) -> Vec<Cfg> {
                     if k >= 2 && tier == Tier::Quick && (wi + ri + ni + mul as usize) % 3 != 0 {
                         continue;
                     }
-                    out.push(Cfg { weights: w.clone(), rates: r.iter().map(|i| rs[*i as usize].clone()).collect(), net: net.clone(), mul });
+                    out.push(Cfg {
+                        weights: w.clone(),
+                        rates: r.iter().map(|i| rs[*i as usize].clone()).collect(),
+                        net: net.clone(),
+                        mul,
+                    });
                 }
             }
         }
@@ -430,34 +698,80 @@ fn configs(k: usize, tier: Tier) -> Vec<Cfg> {
 /// weights, rates and network rates charges, on every state pair
 fn service_route(st: &mut Stats) {
     use routee_compass::app::compass::config::cost_model::cost_model_service::CostModelService;
-    let net = Net { n: 3, edges: vec![(0, 1, 1.0), (1, 2, 1.0)], xy: None };
+    let net = Net {
+        n: 3,
+        edges: vec![(0, 1, 1.0), (1, 2, 1.0)],
+        xy: None,
+    };
     let graph = Arc::new(net.graph());
     let e0 = *graph.get_edge(&EdgeId(0)).unwrap();
     let e1 = *graph.get_edge(&EdgeId(1)).unwrap();
     let vals = [-1.0, 0.0, 2.0];
     for k in 1..=2usize {
-        let sm = Arc::new(StateModel::new((0..k).map(|i| (format!("f{}", i), StateFeature::Distance { distance_unit: DistanceUnit::Meters, initial: Distance::new(0.0) })).collect()));
+        let sm = Arc::new(StateModel::new(
+            (0..k)
+                .map(|i| {
+                    (
+                        format!("f{}", i),
+                        StateFeature::Distance {
+                            distance_unit: DistanceUnit::Meters,
+                            initial: Distance::new(0.0),
+                        },
+                    )
+                })
+                .collect(),
+        ));
         let states = all_vecs(&vals, k);
-        let weight_sets: Vec<Vec<f64>> = if k == 1 { vec![vec![1.0], vec![2.0]] } else { vec![vec![1.0, 1.0], vec![2.0, 0.5], vec![1.0, 0.0]] };
+        let weight_sets: Vec<Vec<f64>> = if k == 1 {
+            vec![vec![1.0], vec![2.0]]
+        } else {
+            vec![vec![1.0, 1.0], vec![2.0, 0.5], vec![1.0, 0.0]]
+        };
         // which features have a vehicle rate: all, none, all but f0, only f0
-        let rate_sets: Vec<Vec<bool>> = if k == 1 { vec![vec![true], vec![false]] } else { vec![vec![true, true], vec![false, false], vec![false, true], vec![true, false]] };
-        for nr in [NetRate::Zero, NetRate::Edge(3.0), NetRate::Pair(8.0), NetRate::Both(3.0, 8.0), NetRate::EdgeTwice(3.0, -2.0, false)] {
+        let rate_sets: Vec<Vec<bool>> = if k == 1 {
+            vec![vec![true], vec![false]]
+        } else {
+            vec![
+                vec![true, true],
+                vec![false, false],
+                vec![false, true],
+                vec![true, false],
+            ]
+        };
+        for nr in [
+            NetRate::Zero,
+            NetRate::Edge(3.0),
+            NetRate::Pair(8.0),
+            NetRate::Both(3.0, 8.0),
+            NetRate::EdgeTwice(3.0, -2.0, false),
+        ] {
             for w in weight_sets.iter() {
                 for has in rate_sets.iter() {
                     for from_query in [false, true] {
                         st.states += 1;
                         st.nontrivial += 1;
-                        let weights: HashMap<String, f64> = w.iter().enumerate().map(|(i, x)| (format!("f{}", i), *x)).collect();
+                        let weights: HashMap<String, f64> = w
+                            .iter()
+                            .enumerate()
+                            .map(|(i, x)| (format!("f{}", i), *x))
+                            .collect();
                         let rates: HashMap<String, routee_compass_core::model::cost::vehicle::vehicle_cost_rate::VehicleCostRate> = has.iter().enumerate().filter(|(_, h)| **h).map(|(i, _)| (format!("f{}", i), Rate::Factor(0.5).real())).collect();
                         let mut nets = HashMap::new();
                         if nr != NetRate::Zero {
                             nets.insert("f0".to_string(), nr.real());
                         }
                         // configured: everything rated raw and weighted 1; the query may bring the weights and rates under test
-                        let all_raw: HashMap<String, _> = (0..k).map(|i| (format!("f{}", i), Rate::Raw.real())).collect();
-                        let all_one: HashMap<String, f64> = (0..k).map(|i| (format!("f{}", i), 1.0)).collect();
+                        let all_raw: HashMap<String, _> = (0..k)
+                            .map(|i| (format!("f{}", i), Rate::Raw.real()))
+                            .collect();
+                        let all_one: HashMap<String, f64> =
+                            (0..k).map(|i| (format!("f{}", i), 1.0)).collect();
                         let service = CostModelService {
-                            vehicle_rates: Arc::new(if from_query { all_raw } else { rates.clone() }),
+                            vehicle_rates: Arc::new(if from_query {
+                                all_raw
+                            } else {
+                                rates.clone()
+                            }),
                             network_rates: Arc::new(nets.clone()),
                             weights: Arc::new(if from_query { all_one } else { weights.clone() }),
                             cost_aggregation: CostAggregation::Sum,
@@ -470,8 +784,19 @@ fn service_route(st: &mut Stats) {
                         };
                         let case = || json!({"service_route": true, "features": k, "weights": w, "features_with_a_vehicle_rate": has, "network_rate": nr, "weights_and_rates_from_query": from_query});
                         let comp = format!("cost_model_service.{}", nr.name());
-                        let built = guarded(|| service.build(&query, sm.clone()).map_err(|e| e.to_string()));
-                        let direct = guarded(|| CostModel::new(Arc::new(weights.clone()), Arc::new(rates.clone()), Arc::new(nets.clone()), CostAggregation::Sum, sm.clone()).map_err(|e| e.to_string()));
+                        let built = guarded(|| {
+                            service.build(&query, sm.clone()).map_err(|e| e.to_string())
+                        });
+                        let direct = guarded(|| {
+                            CostModel::new(
+                                Arc::new(weights.clone()),
+                                Arc::new(rates.clone()),
+                                Arc::new(nets.clone()),
+                                CostAggregation::Sum,
+                                sm.clone(),
+                            )
+                            .map_err(|e| e.to_string())
+                        });
                         let (a, b) = match (built, direct) {
                             (Err(p), _) | (_, Err(p)) => {
                                 st.violation(&comp, "no_panic", k as u64, || p.clone(), case);
@@ -486,7 +811,13 @@ fn service_route(st: &mut Stats) {
                                 continue;
                             }
                             (x, y) => {
-                                st.violation(&comp, "service_builds_the_configured_model", k as u64, || format!("service: {:?} ; direct: {:?}", x.err(), y.err()), case);
+                                st.violation(
+                                    &comp,
+                                    "service_builds_the_configured_model",
+                                    k as u64,
+                                    || format!("service: {:?} ; direct: {:?}", x.err(), y.err()),
+                                    case,
+                                );
                                 continue;
                             }
                         };
@@ -498,15 +829,29 @@ fn service_route(st: &mut Stats) {
                                 st.traces += 1;
                                 let ps: Vec<StateVar> = p.iter().map(|x| StateVar(*x)).collect();
                                 let ns: Vec<StateVar> = n.iter().map(|x| StateVar(*x)).collect();
-                                let ta = a.traversal_cost(&e1, &ps, &ns).map(|c| c.as_f64()).map_err(|e| e.to_string());
-                                let tb = b.traversal_cost(&e1, &ps, &ns).map(|c| c.as_f64()).map_err(|e| e.to_string());
-                                let aa = a.access_cost(&e0, &e1, &ps, &ns).map(|c| c.as_f64()).map_err(|e| e.to_string());
-                                let ab = b.access_cost(&e0, &e1, &ps, &ns).map(|c| c.as_f64()).map_err(|e| e.to_string());
-                                let same = |x: &Result<f64, String>, y: &Result<f64, String>| match (x, y) {
-                                    (Ok(x), Ok(y)) => close(*x, *y, 1e-12),
-                                    (Err(_), Err(_)) => true,
-                                    _ => false,
-                                };
+                                let ta = a
+                                    .traversal_cost(&e1, &ps, &ns)
+                                    .map(|c| c.as_f64())
+                                    .map_err(|e| e.to_string());
+                                let tb = b
+                                    .traversal_cost(&e1, &ps, &ns)
+                                    .map(|c| c.as_f64())
+                                    .map_err(|e| e.to_string());
+                                let aa = a
+                                    .access_cost(&e0, &e1, &ps, &ns)
+                                    .map(|c| c.as_f64())
+                                    .map_err(|e| e.to_string());
+                                let ab = b
+                                    .access_cost(&e0, &e1, &ps, &ns)
+                                    .map(|c| c.as_f64())
+                                    .map_err(|e| e.to_string());
+                                let same =
+                                    |x: &Result<f64, String>, y: &Result<f64, String>| match (x, y)
+                                    {
+                                        (Ok(x), Ok(y)) => close(*x, *y, 1e-12),
+                                        (Err(_), Err(_)) => true,
+                                        _ => false,
+                                    };
                                 if !same(&ta, &tb) || !same(&aa, &ab) {
                                     bad = Some(format!("state {:?} -> {:?}: the service's model charges traversal {:?} access {:?}, the model built from the same weights and rates charges {:?} / {:?}", p, n, ta, aa, tb, ab));
                                     break 'pairs;
@@ -514,7 +859,13 @@ fn service_route(st: &mut Stats) {
                             }
                         }
                         match bad {
-                            Some(d) => st.violation(&comp, "service_builds_the_configured_model", k as u64, || d, case),
+                            Some(d) => st.violation(
+                                &comp,
+                                "service_builds_the_configured_model",
+                                k as u64,
+                                || d,
+                                case,
+                            ),
                             None => st.pass("service_builds_the_configured_model"),
                         }
                     }
@@ -532,16 +883,22 @@ pub fn run(tier: Tier) -> i32 {
         // state pairs: k=1,2 the full lattice; k=3 every delta from two previous states
         let pairs: Vec<(Vec<f64>, Vec<f64>)> = if k <= 2 {
             let v = all_vecs(&VALS, k);
-            v.iter().flat_map(|p| v.iter().map(move |n| (p.clone(), n.clone()))).collect()
+            v.iter()
+                .flat_map(|p| v.iter().map(move |n| (p.clone(), n.clone())))
+                .collect()
         } else {
             let v = all_vecs(&VALS, k);
             let p0 = vec![0.0; k];
             let p1 = vec![1.0, -2.0, 2.0];
-            v.iter().flat_map(|n| vec![(p0.clone(), n.clone()), (p1.clone(), n.clone())]).collect()
+            v.iter()
+                .flat_map(|n| vec![(p0.clone(), n.clone()), (p1.clone(), n.clone())])
+                .collect()
         };
         let deltas: Vec<(Vec<f64>, Vec<f64>)> = {
             let v = all_vecs(&[-1.0, 0.0, 2.0], k);
-            v.iter().flat_map(|a| v.iter().map(move |t| (a.clone(), t.clone()))).collect()
+            v.iter()
+                .flat_map(|a| v.iter().map(move |t| (a.clone(), t.clone())))
+                .collect()
         };
         let n = cfgs.len() as u64;
         let st = par_blocks(n, 16, |lo, hi, st| {
@@ -553,7 +910,10 @@ pub fn run(tier: Tier) -> i32 {
                 // 1e-12, only sums that are not positive get the floor
                 if !cfg.mul {
                     for scale in [1e-12, 3e-14] {
-                        let small = Cfg { weights: cfg.weights.iter().map(|w| w * scale).collect(), ..cfg.clone() };
+                        let small = Cfg {
+                            weights: cfg.weights.iter().map(|w| w * scale).collect(),
+                            ..cfg.clone()
+                        };
                         check_cfg(&small, &pairs, st);
                     }
                 }
@@ -563,14 +923,27 @@ pub fn run(tier: Tier) -> i32 {
                 // linearity in the weights and zero-weight features (sum aggregation, above the floor)
                 if !cfg.mul {
                     let sm = Arc::new(cfg.state_model());
-                    let scaled = Cfg { weights: cfg.weights.iter().map(|w| w * 3.0).collect(), ..cfg.clone() };
-                    if let (Ok(a), Ok(b)) = (cfg.cost_model(sm.clone()), scaled.cost_model(sm.clone())) {
-                        let g = Net { n: 3, edges: vec![(0, 1, 1.0), (1, 2, 1.0)], xy: None }.graph();
+                    let scaled = Cfg {
+                        weights: cfg.weights.iter().map(|w| w * 3.0).collect(),
+                        ..cfg.clone()
+                    };
+                    if let (Ok(a), Ok(b)) =
+                        (cfg.cost_model(sm.clone()), scaled.cost_model(sm.clone()))
+                    {
+                        let g = Net {
+                            n: 3,
+                            edges: vec![(0, 1, 1.0), (1, 2, 1.0)],
+                            xy: None,
+                        }
+                        .graph();
                         let e1 = *g.get_edge(&EdgeId(1)).unwrap();
                         for (p, nx) in pairs.iter().step_by(7) {
                             let ps: Vec<StateVar> = p.iter().map(|x| StateVar(*x)).collect();
                             let ns: Vec<StateVar> = nx.iter().map(|x| StateVar(*x)).collect();
-                            if let (Ok(ca), Ok(cb)) = (a.traversal_cost(&e1, &ps, &ns), b.traversal_cost(&e1, &ps, &ns)) {
+                            if let (Ok(ca), Ok(cb)) = (
+                                a.traversal_cost(&e1, &ps, &ns),
+                                b.traversal_cost(&e1, &ps, &ns),
+                            ) {
                                 let (ca, cb) = (ca.as_f64(), cb.as_f64());
                                 if ca > FLOOR * 10.0 {
                                     st.transitions += 1;
@@ -585,7 +958,10 @@ pub fn run(tier: Tier) -> i32 {
                             if let Some(z) = cfg.weights.iter().position(|w| *w == 0.0) {
                                 let mut ns2 = ns.clone();
                                 ns2[z].0 += 17.0;
-                                if let (Ok(c1), Ok(c2)) = (a.traversal_cost(&e1, &ps, &ns), a.traversal_cost(&e1, &ps, &ns2)) {
+                                if let (Ok(c1), Ok(c2)) = (
+                                    a.traversal_cost(&e1, &ps, &ns),
+                                    a.traversal_cost(&e1, &ps, &ns2),
+                                ) {
                                     st.transitions += 1;
                                     if c1.as_f64() == c2.as_f64() {
                                         st.pass("zero_weight_feature_ignored");
@@ -613,7 +989,11 @@ pub fn run(tier: Tier) -> i32 {
 }
 
 pub fn replay(case: &Value) -> i32 {
-    let case = if case.get("case").is_some() && case.get("cfg").is_none() { &case["case"] } else { case };
+    let case = if case.get("case").is_some() && case.get("cfg").is_none() {
+        &case["case"]
+    } else {
+        case
+    };
     if case.get("service_route").is_some() {
         // the whole service-route section is run again (a few hundred builds)
         let mut st = Stats::new();
@@ -633,7 +1013,8 @@ pub fn replay(case: &Value) -> i32 {
     let mut st = Stats::new();
     if case.get("access_delta").is_some() {
         let a: Vec<f64> = serde_json::from_value(case["access_delta"].clone()).unwrap_or_default();
-        let t: Vec<f64> = serde_json::from_value(case["traversal_delta"].clone()).unwrap_or_default();
+        let t: Vec<f64> =
+            serde_json::from_value(case["traversal_delta"].clone()).unwrap_or_default();
         check_edge_traversal(&cfg, &[(a, t)], &mut st);
     } else {
         let p: Vec<f64> = serde_json::from_value(case["prev_state"].clone()).unwrap_or_default();
@@ -643,6 +1024,14 @@ pub fn replay(case: &Value) -> i32 {
     for (k, g) in st.violations.iter() {
         println!("REPLAY-VIOLATION {} {}", k, g.detail);
     }
-    println!("replay: {} violated clauses, passes {:?}", st.violations.len(), st.clause_pass);
-    if st.violations.is_empty() { 0 } else { 1 }
+    println!(
+        "replay: {} violated clauses, passes {:?}",
+        st.violations.len(),
+        st.clause_pass
+    );
+    if st.violations.is_empty() {
+        0
+    } else {
+        1
+    }
 }
